@@ -385,6 +385,32 @@ Definition corr_parse (c : pcase) : bool :=
   | _ => false
   end.
 
+(* ------------------------------------------------------------------ C03(e) / C04: what validation does to the diagnostics *)
+Fixpoint sub_multiset {X} (eqb : X -> X -> bool) (small big : list X) : bool :=
+  match small with
+  | [] => true
+  | x :: small' => match remove_first eqb x big with Some r => sub_multiset eqb small' r | None => false end
+  end.
+(* validation never drops a parse-stage diagnostic *)
+Definition spec_C03_kept (c : list file_result * list file_result) : bool :=
+  let '(p, v) := c in
+  Nat.eqb (length p) (length v) &&
+  forallb (fun '(fp, fv) => sub_multiset diag_eqb_msg (fr_diags fp) (fr_diags fv)) (combine p v).
+
+(* every diagnostic added by validation sits on a range of a node of the tree *)
+Definition node_ranges (a : aidl) : list range :=
+  flat_map (fun s => [sym_range s; sym_full s]) (symbols FAll a) ++
+  flat_map (fun m => [m_code_range m; m_oneway_range m] ++
+                     flat_map (fun x => match a_dir x with
+                                        | DIn r | DOut r | DInOut r => [r]
+                                        | DUnspecified => [Rng (r_start (ty_sym (a_ty x))) (r_start (ty_sym (a_ty x)))]
+                                        end) (m_args m)) (methods_of (ai_item a)).
+Definition spec_C04_validation (c : list file_result * list file_result) : bool :=
+  for_files (fun a a' ds0 ds =>
+    let nodes := node_ranges a' in
+    forallb (fun d => existsb (diag_eqb_msg d) ds0 ||
+                      (in_ranges (d_range d) nodes && forallb (fun r => in_ranges r nodes) (d_related d))) ds) c.
+
 Definition checks : list (string * (sx -> N)) :=
   [ ("corr_validate"%string, run_bool d_vcase corr_validate);
     ("corr_C09"%string, run_bool d_vcase corr_C09);
@@ -401,6 +427,7 @@ Definition checks : list (string * (sx -> N)) :=
     ("corr_C12"%string, run_bool d_hcase corr_C12);
     ("spec_C20"%string, spec_C20); ("corr_C20"%string, run_bool d_pcase corr_C20);
     ("corr_parse"%string, run_bool d_pcase corr_parse);
+    ("spec_C03_kept"%string, run_bool d_vcase spec_C03_kept); ("spec_C04_validation"%string, run_bool d_vcase spec_C04_validation);
     ("corr_C19"%string, run_bool (fun s => match s with L [x] => d_list d_aidl x | _ => None end) corr_C19) ].
 
 Definition dispatch (name : str) (s : sx) : N :=
